@@ -23,6 +23,11 @@
 (* (RefAccept), and the reference graph of the HEAD rules (DocDeps).       *)
 (* Properties: Inv_C03, Inv_C20.                                           *)
 (*                                                                         *)
+(* Phase 2 growth: several file-level parts per commit (Pairs/ValidParts), *)
+(* files that do not parse (broken, error entries, failedEntries), the     *)
+(* base branch inserting rules and being merged into the branch (base,     *)
+(* mainNew, MergeBase; reference = merge base vs HEAD; StaleAt = F23).     *)
+(*                                                                         *)
 (* A behaviour first builds the tree at the fork point (phase "fork"),     *)
 (* then performs branch commits, one file-level operation per commit       *)
 (* (phase "branch"). Every state of phase "branch" is a complete history   *)
